@@ -2397,3 +2397,48 @@ def interpreted_langevin_coefficients(repo):
     return {"ok": not msgs, "messages": msgs, "c1": None if c1 is None else sp.sympify(np.asarray(c1, dtype=object).reshape(-1)[0]),
             "c2": None if c2 is None else sp.sympify(np.broadcast_to(np.asarray(c2, dtype=object), w.shape)[0, 0, 0]) if zero_on_pad or c2 is not None else None,
             "symbols": {"dt": dt, "damp": damp, "Temp": T, "minv": w[0, 0, 0], "VEL": VEL}, "zero_on_pad": zero_on_pad}
+
+
+# ------------------------------------------------------------------------------------------------------------------------------------------------
+# C02-R7: the p and d rotation blocks of the spd integral rotation are orthogonal matrices (by value)
+# ------------------------------------------------------------------------------------------------------------------------------------------------
+def interpreted_d_rotation(repo):
+    """RotationMatrixD.GenerateRotationMatrix is interpreted (sa.npsym) on exact unit bond vectors (generic directions with x, y, z all non-zero in several octants, the
+    coordinate planes, the axes) and the 3 x 3 p block and the 5 x 5 d block are read back from the returned table (rows 0..2 / 0..4 of the columns INDX[K+1] / INDX[K+4]).
+    Whatever the ordering and phase conventions of the real p / d functions, a change of frame is represented by *orthogonal* matrices: P P^T = 1 and D D^T = 1 (to 1e-9; the
+    routine's literal for sqrt(3)/2 has 13 digits).  A mistyped, halved or sign-flipped entry of the d block breaks this for bonds off the coordinate planes, where no test
+    geometry of the suite lies.  Returns [(ok, message)]."""
+    import numpy as np
+    import sympy as sp
+    from .loader import AnalysisError
+    from .npsym import NpSym
+    rel = "seqm/seqm_functions/RotationMatrixD.py"
+    if not repo.has(rel):
+        raise AnalysisError(f"{rel} not found")
+    m = repo.mod(rel)
+    if not m.has_func("GenerateRotationMatrix"):
+        raise AnalysisError("GenerateRotationMatrix not found")
+    R = sp.Rational
+    vecs = [(R(12, 25), R(9, 25), R(4, 5)), (R(-3, 13), R(4, 13), R(12, 13)), (R(24, 85), R(-32, 85), R(15, 17)), (R(-12, 25), R(-9, 25), R(-4, 5)), (R(3, 13), R(4, 13), R(-12, 13)),
+            (R(3, 5), R(4, 5), 0), (R(3, 5), 0, R(-4, 5)), (0, R(-5, 13), R(12, 13)), (1, 0, 0), (0, -1, 0), (0, 0, 1), (0, 0, -1)]
+    xij = np.array([[sp.sympify(c) for c in v] for v in vecs], dtype=object)
+    I = NpSym(repo, stubs={"print": lambda *a, **k: None})
+    out = np.asarray(I.call_function(m, "GenerateRotationMatrix", [xij]), dtype=object)
+    if out.ndim != 3 or out.shape[0] != len(vecs) or out.shape[1] < 5 or out.shape[2] < 37:
+        raise AnalysisError(f"GenerateRotationMatrix returns an array of shape {out.shape}; the (pairs, 15, 45) table is expected")
+    INDX = [0, 1, 3, 6, 10, 15, 21, 28, 36]
+    res = []
+    for blk, n, cols in (("p", 3, [INDX[k + 1] for k in range(3)]), ("d", 5, [INDX[k + 4] for k in range(5)])):
+        bad = None
+        for k, v in enumerate(vecs):
+            B = sp.Matrix(n, n, lambda i, j: sp.nsimplify(out[k, j, cols[i]]))
+            G = (B * B.T - sp.eye(n)).applyfunc(lambda t: abs(sp.N(t, 30)))
+            worst = max(G)
+            if worst > sp.Float("1e-9"):
+                i, j = divmod(list(G).index(worst), n)
+                bad = (f"the {blk} block of the rotation table is not an orthogonal matrix for the bond direction ({', '.join(str(c) for c in v)}): (B B^T)[{i},{j}] deviates from "
+                       f"the unit matrix by {float(worst):.3g}; a change of frame must be represented orthogonally, so rotated {blk}-orbital integrals (and the energy of a molecule "
+                       f"with such a bond) depend on the orientation")
+                break
+        res.append((bad is None, bad or f"{blk} block orthogonal for {len(vecs)} exact bond directions (generic, planar, axial)"))
+    return res
